@@ -55,10 +55,12 @@ def main():
         flip['calls'] += 1
         if flip['on'] and flip['calls'] > 1: return ['g1'] if not user.groups else []     # a provider that changes its mind
         return list(user.groups)
+    role_override = {'value': None}      # 'sessions' mode: the user has / has not role r1 on every object, changeable between sessions
     @core.user_roles_getter(User, None)
     def roles_of(user, obj):
         flip['calls'] += 1
         has = (user.uid, objid(obj)) in ROLES
+        if role_override['value'] is not None: has = role_override['value']
         if flip['on'] and flip['calls'] > 3: has = not has
         return ['r1'] if has else []
     @core.obj_labels_getter(None)
@@ -154,6 +156,32 @@ def main():
 
     results = []
     mode = payload.get('mode', 'table')
+    if mode == 'sessions':
+        # histories across sessions of one thread: session 1 (check; ends with commit or with an exception -> rollback), the user's
+        # groups / roles change, session 2 (check).  The thread-local provider caches must not carry session 1's answers over.
+        class Boom(Exception): pass
+        for case in payload['cases']:
+            clear_rules(); declare(case['rules'])
+            u = USERS[case['user']]
+            saved = list(u.groups)
+            answers = []
+            try:
+                u.groups = ['g1'] if case['g0'] else []; role_override['value'] = case['r0']
+                try:
+                    with orm.db_session:
+                        answers.append(bool(core.has_perm(u, case['perm'], targets()[case['target']])))
+                        if case['end1'] == 'raise': raise Boom()
+                except Boom: pass
+                u.groups = ['g1'] if case['g1'] else []; role_override['value'] = case['r1']
+                with orm.db_session:
+                    answers.append(bool(core.has_perm(u, case['perm'], targets()[case['target']])))
+            finally:
+                u.groups = saved; role_override['value'] = None
+                core.local.user_groups_cache.clear(); core.local.user_roles_cache.clear()      # no leak into the next case
+            results.append({'answers': answers})
+        clear_rules()
+        sys.stdout.write('\n@@JSON@@' + json.dumps({'results': results}))
+        return
     for rules in payload['rulesets']:
         clear_rules()
         if mode == 'order':
